@@ -262,7 +262,10 @@ def term(p: Program, expr: ast.AST, inst, depth: int = 0):
                         and not is_classvar and not p.is_protocol(bt[1]):
                     return ('const', default.value)
         if bt[0] == 'type' and bt[1][0] == 'class':
-            return ('global', f'{bt[1][1].qualname}.{expr.attr}')
+            base = term(p, expr.value, inst, depth + 1)
+            if isinstance(base, tuple) and base and base[0] == 'global':
+                return ('global', f'{bt[1][1].qualname}.{expr.attr}')
+            return ('attr', base, expr.attr)          # a variable holding some class: not a constant member
         if bt[0] == 'module':
             return ('global', f'{bt[1]}.{expr.attr}')
         if bt[0] == 'extsym':
